@@ -191,41 +191,7 @@ func checkC08(p *Prog, r *Report) {
 		}
 		r.check(ok, "C08.K5", fi.Name, p.Pos(fi.Node), "dispatch by block size", "8 -> "+spec.f8+", 16 -> "+spec.f16+", otherwise panic", why+": a cipher is processed with the wrong block width (garbage, not CFB)")
 	}
-	{
-		fi := p.FuncByName("newBlockCrypt")
-		okE, okD := false, false
-		ast.Inspect(fi.Body, func(n ast.Node) bool {
-			kv, ok := n.(*ast.KeyValueExpr)
-			if !ok {
-				return true
-			}
-			key, _ := kv.Key.(*ast.Ident)
-			call, isC := kv.Value.(*ast.CallExpr)
-			if key == nil || !isC || p.BuiltinName(call) != "make" || len(call.Args) < 2 {
-				return true
-			}
-			sz := p.Term(call.Args[1])
-			isBS := func(t *Term) bool {
-				if t.Op == "var" {
-					if v, ok := t.Obj.(*types.Var); ok {
-						as := p.Assignments(fi, v)
-						if len(as) == 1 && as[0].Rhs != nil {
-							t = p.Term(as[0].Rhs)
-						}
-					}
-				}
-				return t.Op == "call" && t.Obj != nil && t.Obj.Name() == "BlockSize"
-			}
-			switch key.Name {
-			case "encbuf":
-				okE = isBS(sz)
-			case "decbuf":
-				okD = sz.Op == "*" && ((sz.Args[0].IsConst() && sz.Args[0].Int == 2 && isBS(sz.Args[1])) || (sz.Args[1].IsConst() && sz.Args[1].Int == 2 && isBS(sz.Args[0])))
-			}
-			return true
-		})
-		r.check(okE && okD, "C08.K5", fi.Name, p.Pos(fi.Node), "scratch sizes", "encbuf = make([]byte, bs), decbuf = make([]byte, 2*bs)", fmt.Sprintf("encbuf has bs bytes: %v; decbuf has 2*bs bytes: %v — the registers tbl/next overlap or the slicing panics", okE, okD))
-	}
+	checkCipherScratch(p, r, "C08.K5")
 
 	// ---- K6
 	for _, typ := range []string{"salsa20BlockCrypt", "simpleXORBlockCrypt", "noneBlockCrypt"} {
@@ -1225,4 +1191,43 @@ func sameLive(a, b *cfbState, regs []*types.Var, bs int64) bool {
 	}
 	la, lb := live(a), live(b)
 	return la != "?" && la == lb
+}
+
+// checkCipherScratch: the two feedback registers of a CFB cipher object are separate allocations of the sizes the
+// unrolled routines slice (encbuf: one block, decbuf: two) — they are guarded by different mutexes (encMu / decMu), so
+// memory shared between them is accessed concurrently by an encryptor and a decryptor. Shared by C08.K5 and C14.L9.
+func checkCipherScratch(p *Prog, r *Report, rule string) {
+	fi := p.FuncByName("newBlockCrypt")
+	okE, okD := false, false
+	ast.Inspect(fi.Body, func(n ast.Node) bool {
+		kv, ok := n.(*ast.KeyValueExpr)
+		if !ok {
+			return true
+		}
+		key, _ := kv.Key.(*ast.Ident)
+		call, isC := kv.Value.(*ast.CallExpr)
+		if key == nil || !isC || p.BuiltinName(call) != "make" || len(call.Args) < 2 {
+			return true
+		}
+		sz := p.Term(call.Args[1])
+		isBS := func(t *Term) bool {
+			if t.Op == "var" {
+				if v, ok := t.Obj.(*types.Var); ok {
+					as := p.Assignments(fi, v)
+					if len(as) == 1 && as[0].Rhs != nil {
+						t = p.Term(as[0].Rhs)
+					}
+				}
+			}
+			return t.Op == "call" && t.Obj != nil && t.Obj.Name() == "BlockSize"
+		}
+		switch key.Name {
+		case "encbuf":
+			okE = isBS(sz)
+		case "decbuf":
+			okD = sz.Op == "*" && ((sz.Args[0].IsConst() && sz.Args[0].Int == 2 && isBS(sz.Args[1])) || (sz.Args[1].IsConst() && sz.Args[1].Int == 2 && isBS(sz.Args[0])))
+		}
+		return true
+	})
+	r.check(okE && okD, rule, fi.Name, p.Pos(fi.Node), "scratch sizes", "encbuf = make([]byte, bs), decbuf = make([]byte, 2*bs)", fmt.Sprintf("encbuf has bs bytes: %v; decbuf has 2*bs bytes: %v — the registers tbl/next overlap or the slicing panics", okE, okD))
 }
